@@ -6,8 +6,9 @@
 
 int main()
 {
-  // (1) |A| == 1e-9 exactly: neither `|A| < 1e-9` nor `|A| > 1e-9` holds, the polynomial is treated as sign-constant.
-  //     int_{-1}^{1} |1e-9 t^2 + t| dt = 1 (to 1e-9); the code returns |int (..)| = 2e-9/3.
+  // (1) FIXED by /repo b9fcddd (`abs(A) >= 1e-9`); before it: |A| == 1e-9 exactly satisfied neither `|A| < 1e-9` nor
+  //     `|A| > 1e-9`, the polynomial was treated as sign-constant.  int_{-1}^{1} |1e-9 t^2 + t| dt = 1 (to 1e-9); the old
+  //     code returned |int (..)| = 2e-9/3.  Exit code: 6 on the repaired tree (bits 2 and 4 = the two open findings), 7 before.
   const double r1 = smooth::integrate_absolute_polynomial(-1, 1, 1e-9, 1, 0);
   std::printf("gap      |A|=1e-9, B=1, C=0 on [-1,1]      : code %.12g   definition 1.000000000\n", r1);
   // (2) 0 < |A| < 1e-9 < |B|: root placed at -C/B although 9e-10 t^2 + 2e-9 t + 1e-8 has no real root.
